@@ -1,7 +1,7 @@
 (** The generated rendering of the source's integer decision logic ([Gen/Src.v], written by
     tools/py2coq.py from the current /repo on every run) equals the hand-written model, for ALL
     inputs.  When the source changes one of these decisions, the corresponding lemma stops
-    compiling.  This file: sweep schedule, chain length, scratch growth (C09, C08, C06). *)
+    compiling.  This file: the sweep schedule and the rows of the swap history (C09). *)
 From Coq Require Import ZArith Bool Lia List.
 From Coq Require Import ZifyBool ZifyNat.
 From Epsie Require Import Base Machine Gen.Src.
@@ -23,14 +23,6 @@ Proof.
     destruct (Nat.eqb_spec (iteration mod swap_interval) 0); destruct (Z.eqb_spec (Z.of_nat (iteration mod swap_interval)) 0); try lia; reflexivity.
 Qed.
 
-Lemma src_len_tie {V} (c : chain V) : (lastclear V c <= iter V c)%nat ->
-  src_len (Z.of_nat (iter V c)) (Z.of_nat (lastclear V c)) = Z.of_nat (clen V c).
-Proof. intros Hle. unfold src_len, clen. lia. Qed.
-
-Lemma src_run_scratchlen_tie (n len sl : nat) :
-  src_run_scratchlen (Z.of_nat n) (Z.of_nat len) (Z.of_nat sl) = Z.of_nat (sl + (n + len - sl)).
-Proof. unfold src_run_scratchlen. lia. Qed.
-
 (** where a sweep stores its row, and how many rows the views show (the two differ after a clear
     at an iteration that is not a multiple of the swap interval: known finding D3 of C09/C06) *)
 Lemma src_swap_ii_tie (iteration lastclear : nat) : (lastclear < iteration)%nat ->
@@ -46,25 +38,3 @@ Lemma src_view_rows_tie (len swap_interval : nat) :
   /\ src_acceptance_view_rows (Z.of_nat len) (Z.of_nat swap_interval) = Z.of_nat (len / swap_interval).
 Proof. unfold src_swaps_view_rows, src_acceptance_view_rows. now rewrite of_nat_div. Qed.
 
-(** scratch rows: [ChainData.__setitem__] extends by [index + 1 - len] when the index is beyond the
-    data ([sc_set]), [set_len] grows by [n - len] exactly when [len < n] ([sc_setlen]) *)
-Lemma src_setitem_extend_tie {T} (l : scratch T) (i : nat) (v : T) : (length l <= i)%nat ->
-  Z.of_nat (length (sc_set l i v)) = Z.of_nat (length l) + src_setitem_extend (Z.of_nat i) (Z.of_nat (length l)).
-Proof.
-  intros Hle. unfold sc_set, src_setitem_extend.
-  replace (i <? length l)%nat with false by (symmetry; apply Nat.ltb_ge; exact Hle).
-  rewrite !app_length, repeat_length. cbn [length]. lia.
-Qed.
-
-Lemma src_set_len_tie {T} (l : scratch T) (n : nat) :
-  src_set_len_grows (Z.of_nat n) (Z.of_nat (length l)) = (length l <? n)%nat
-  /\ ((length l < n)%nat ->
-      Z.of_nat (length (sc_setlen l n)) = Z.of_nat (length l) + src_set_len_amount (Z.of_nat n) (Z.of_nat (length l)))
-  /\ ((n <= length l)%nat -> sc_setlen l n = l).
-Proof.
-  unfold src_set_len_grows, src_set_len_amount, sc_setlen. split; [|split].
-  - destruct (Nat.ltb_spec (length l) n); destruct (Z.ltb_spec (Z.of_nat (length l)) (Z.of_nat n)); try lia; reflexivity.
-  - intros Hlt. replace (length l <? n)%nat with true by (symmetry; apply Nat.ltb_lt; exact Hlt).
-    rewrite app_length, repeat_length. lia.
-  - intros Hle. replace (length l <? n)%nat with false by (symmetry; apply Nat.ltb_ge; exact Hle). reflexivity.
-Qed.
